@@ -195,4 +195,116 @@ theorem implTagSplitUnchecked_ofNat (w : Nat) (hw : w < 2 ^ 64) :
   unfold implTagSplitUnchecked
   simp only [shr3_setWidth w hw, and7 w hw]
 
+/-! ### the varint-skip ladder of impl.Validate (validate.go, `case protowire.VarintType:`)
+
+`if len(b) >= 10 { switch { case b[0] < 0x80: b = b[1:] … case b[9] < 0x80 && b[9] < 2: b = b[10:]; default: fail } }
+ else { switch { case len(b) > 0 && b[0] < 0x80: b = b[1:] … case len(b) > 9 && b[9] < 2: b = b[10:]; default: fail } }`
+It never calls ConsumeVarint and only needs the LENGTH of the varint. -/
+
+/-- recursive shape of the ladder: the input that remains after the varint, or failure -/
+def skipAux (i : Nat) : List Byte → (List Byte × Bool)
+  | [] => ([], false)
+  | x :: r =>
+    if i ≥ 9 then (if x.toNat < 2 then (r, true) else ([], false))
+    else if x.toNat < 128 then (r, true)
+    else skipAux (i + 1) r
+
+theorem ult8_2 (x : Byte) : BitVec.ult x 2#8 = decide (x.toNat < 2) := by
+  simp [BitVec.ult]
+
+/-- `b[k:]` for a literal k, as an unconditional rewrite: `none` is the slice-bounds panic -/
+theorem slice_ite (b : List Byte) (hb : b.length < 2 ^ 63) (k : Nat) (hk : k < 2 ^ 63) :
+    Go.slice b (some (BitVec.ofNat 64 k)) none = if k ≤ b.length then some (b.drop k) else none := by
+  by_cases h : k ≤ b.length
+  · rw [if_pos h]; exact slice_from b k hb h
+  · rw [if_neg h]
+    unfold Go.slice
+    have h1 : k % 2 ^ 64 = k := Nat.mod_eq_of_lt (by omega)
+    have h2 : b.length % 2 ^ 64 = b.length := Nat.mod_eq_of_lt (by omega)
+    simp only [Option.getD_some, Option.getD_none, msb_ofNat_false k hk, msb_ofNat_false _ hb,
+      Bool.or_self, Bool.false_eq_true, ↓reduceIte, BitVec.toNat_ofNat, h1, h2]
+    rw [if_neg (by omega)]
+
+/-- the translated ladder (both switches) is the recursive ladder; in particular it never panics -/
+theorem skip_eq_aux (b : List Byte) (hb : b.length < 2 ^ 63) :
+    implValidateSkipVarint b = some (skipAux 0 b) := by
+  have s1 := slice_ite b hb 1 (by decide)
+  have s2 := slice_ite b hb 2 (by decide)
+  have s3 := slice_ite b hb 3 (by decide)
+  have s4 := slice_ite b hb 4 (by decide)
+  have s5 := slice_ite b hb 5 (by decide)
+  have s6 := slice_ite b hb 6 (by decide)
+  have s7 := slice_ite b hb 7 (by decide)
+  have s8 := slice_ite b hb 8 (by decide)
+  have s9 := slice_ite b hb 9 (by decide)
+  have s10 := slice_ite b hb 10 (by decide)
+  simp only [implValidateSkipVarint, s1, s2, s3, s4, s5, s6, s7, s8, s9, s10]
+  clear s1 s2 s3 s4 s5 s6 s7 s8 s9 s10
+  rcases b with _ | ⟨x0, _ | ⟨x1, _ | ⟨x2, _ | ⟨x3, _ | ⟨x4, _ | ⟨x5, _ | ⟨x6, _ | ⟨x7, _ | ⟨x8, _ | ⟨x9, rest⟩⟩⟩⟩⟩⟩⟩⟩⟩⟩
+  all_goals try simp [skipAux, ult8, ult8_2, apply_ite some]
+  -- ten or more bytes: `b[9] < 0x80 && b[9] < 2` is `b[9] < 2`
+  by_cases h2 : x9.toNat < 2
+  · have h128 : x9.toNat < 128 := by omega
+    simp [h2, h128]
+  · by_cases h128 : x9.toNat < 128 <;> simp [h2, h128]
+
+/-- the ladder against the specification decoder: it skips exactly the bytes `decVarint` consumes
+and fails exactly when `decVarint` fails (truncated or overflow — Validate does not distinguish) -/
+theorem skipAux_spec (b : List Byte) : ∀ (i : Nat), i ≤ 9 →
+    skipAux i b = match Spec.decVarintAux i b with
+      | .ok (_, n) => (b.drop n, true)
+      | .error _ => ([], false) := by
+  induction b with
+  | nil => intro i _; simp [skipAux, Spec.decVarintAux]
+  | cons x r ih =>
+    intro i hi
+    unfold skipAux Spec.decVarintAux
+    by_cases h9 : i ≥ 9
+    · by_cases hx : x.toNat < 2 <;> simp [h9, hx]
+    · by_cases hx : x.toNat < 128
+      · simp [h9, hx]
+      · simp only [h9, hx, ↓reduceIte]
+        rw [ih (i + 1) (by omega)]
+        cases hd : Spec.decVarintAux (i + 1) r with
+        | error e => rfl
+        | ok p => obtain ⟨w, n⟩ := p; simp
+
+/-- skipping over continuation bytes -/
+theorem skipAux_cont (p : List Byte) (hp : ∀ x ∈ p, ¬ x.toNat < 128) (r : List Byte) :
+    ∀ (i : Nat), i + p.length ≤ 9 → skipAux i (p ++ r) = skipAux (i + p.length) r := by
+  induction p with
+  | nil => intro i _; simp
+  | cons x q ih =>
+    intro i hi
+    simp only [List.length_cons] at hi
+    have hx : ¬ x.toNat < 128 := hp x (by simp)
+    have h9 : ¬ i ≥ 9 := by omega
+    simp only [List.cons_append, skipAux, h9, hx, ↓reduceIte, List.length_cons]
+    rw [ih (fun y hy => hp y (by simp [hy])) (i + 1) (by omega)]
+    congr 1; omega
+
+/-- what "consume a varint VALUE and advance" is when only the length matters -/
+def slowSkip (b : List Byte) : Option (List Byte × Bool) :=
+  (consumeVarint b).bind fun (_, n) =>
+    if BitVec.slt n 0#64 then some ([], false)
+    else (Go.slice b (some n) none).bind fun r => some (r, true)
+
+theorem slowSkip_spec (b : List Byte) (hb : b.length < 2 ^ 63) :
+    slowSkip b = some (match Spec.decVarint b with
+      | .ok (_, n) => (b.drop n, true)
+      | .error _ => ([], false)) := by
+  unfold slowSkip
+  rw [consumeVarint_spec]
+  cases hd : Spec.decVarint b with
+  | error e => simp [goVarint, slt_code]
+  | ok p =>
+    obtain ⟨w, n⟩ := p
+    obtain ⟨h1, h2, hn, _⟩ := decVarint_bounds b w n hd
+    simp [goVarint, slt_small_false n h1 h2, slice_from b n hb hn]
+
+theorem skip_eq_slow (b : List Byte) (hb : b.length < 2 ^ 63) :
+    implValidateSkipVarint b = slowSkip b := by
+  rw [skip_eq_aux b hb, slowSkip_spec b hb, skipAux_spec b 0 (by omega)]
+  rfl
+
 end ImplFast
